@@ -63,6 +63,7 @@ func (c c18Case) world() cfggen.World {
 
 func runC18(t failer, c c18Case) (paths map[string]bool) {
 	ev.Eval()
+	journal("C18", c)
 	paths = map[string]bool{}
 	fail := func(sig, format string, args ...interface{}) {
 		violation(t, "C18", "logs", "C18:"+sig, c, format, args...)
@@ -84,10 +85,16 @@ func runC18(t failer, c c18Case) (paths map[string]bool) {
 	}
 	r := newAuthRunner(d, []byte(c.Key), c.Scripts)
 	tokens := map[string]string{c.Key: "shared secret"}
+	// strings the client also sent in a position that is not a password position (a user name, a
+	// message answering GETUSER, ...): the server may log those, so they cannot serve as tokens
+	elsewhere := map[string]bool{}
 	lastStatus := make([]byte, len(c.Scripts))
 	scan := func(when string) {
 		for _, e := range env.logger.Entries() {
 			for tok, what := range tokens {
+				if elsewhere[tok] {
+					continue
+				}
 				switch e.Kind {
 				case "infof", "errorf", "debugf":
 					if strings.Contains(e.Text, tok) {
@@ -120,6 +127,25 @@ func runC18(t failer, c c18Case) (paths map[string]bool) {
 		}
 		p := c.Scripts[i].Pkts[j]
 		// is this packet a password position?
+		isPwPos := false
+		switch {
+		case p.Kind == "start" && p.Start.AType == 2:
+			isPwPos = true
+		case p.Kind == "continue" && lastStatus[i] == stGetPass:
+			isPwPos = true
+		}
+		switch p.Kind {
+		case "start":
+			elsewhere[string(p.Start.User)], elsewhere[string(p.Start.Port)], elsewhere[string(p.Start.RemAddr)] = true, true, true
+			if !isPwPos {
+				elsewhere[string(p.Start.Data)] = true
+			}
+		case "continue":
+			elsewhere[string(p.Cont.Data)] = true
+			if !isPwPos {
+				elsewhere[string(p.Cont.UserMsg)] = true
+			}
+		}
 		switch {
 		case p.Kind == "start" && p.Start.AType == 2 && searchable(string(p.Start.Data)):
 			tokens[string(p.Start.Data)] = "PAP password"
